@@ -24,7 +24,8 @@ def byte_pool() -> Dict[str, bytes]:
     """C17 concretisation pool: boundary lengths, NUL-rich, high bytes, marker-like values."""
     vals = [b"", b"\x00", b"a\x00\x00", b"\x00\x00\x00\x00", b"x", b"\x7f\x7f", b"\x7f\x00", b"\x00\x7f", b"\x1a",
             b"\xff\xfe\xfd", bytes(range(256)), b"A" * 63, b"B" * 64, b"G" * 64, b"C" * 65, b"D" * 1023, b"E" * 1024, b"F" * 1025,
-            b"text with newline\n", "äöü ✓".encode(), b"\x89HDF\r\n\x1a\n", b"ih5_v01\n1024\n{}\x00"]
+            b"text with newline\n", "äöü ✓".encode(), b"\x89HDF\r\n\x1a\n", b"ih5_v01\n1024\n{}\x00",
+            bytes(range(256)) * 4097 + b"end"]     # a little more than 1 MiB (buffer / mmap thresholds)
     return {f"b{k}": v for k, v in enumerate(vals)}
 
 
